@@ -5,49 +5,76 @@ package shard
 // C15 – "After a crash, every object the metadata lists as available is readable".
 //
 // Fault enumeration.  For every scripted history of <= 10 shard operations (put, repeated
-// put, direct delete, garbage marks, tombstones, GC passes, explicit and background
-// write-cache flushes; write-cache on and off) a dry-run child process records every step
-// boundary (hook points H3/H4) the history passes.  Then, for EVERY (point, k-th hit), a
-// fresh child replays the history on a fresh store and is SIGKILLed exactly there.  The
-// parent reopens the store (no resync) and demands the statement: every address the
-// metadata reports as available is returned by Shard.Get/GetBytes with the bytes that
-// were put.
+// put, direct delete, redundant / default garbage marks, tombstones, epoch advance, GC
+// passes, explicit and background write-cache flushes; write-cache on and off) a dry-run
+// child process records every step boundary (hook points of shard put/delete, write-cache
+// put/delete/flush, optionally the FSTree syscall points) the history passes.  Then, for
+// EVERY (point, k-th hit), a fresh child replays the history on a fresh store and is
+// SIGKILLed exactly there.  The parent reopens the store (no resync) and demands the
+// statement: every address the metadata reports as available is returned in full by the
+// shard's read calls with the bytes that were put.
+//
+// The oracle knows nothing about the order of the component steps: it only compares what
+// the metabase says with what can be read.
 
 import (
 	"bytes"
 	"encoding/json"
 	"fmt"
+	"io"
 	"io/fs"
 	"os"
 	"path/filepath"
 	"sort"
 	"strings"
 	"sync"
+	"sync/atomic"
 	"syscall"
 	"testing"
 	"time"
 
+	"github.com/nspcc-dev/neofs-node/internal/verifhook"
 	"github.com/nspcc-dev/neofs-node/internal/verifkit"
 	"github.com/nspcc-dev/neofs-node/pkg/local_object_storage/blobstor/fstree"
 	meta "github.com/nspcc-dev/neofs-node/pkg/local_object_storage/metabase"
 	"github.com/nspcc-dev/neofs-node/pkg/local_object_storage/writecache"
+	cid "github.com/nspcc-dev/neofs-sdk-go/container/id"
 	"github.com/nspcc-dev/neofs-sdk-go/object"
 	oid "github.com/nspcc-dev/neofs-sdk-go/object/id"
 	"go.uber.org/zap"
 )
 
-type vf15Epoch struct{}
+const (
+	vf15OpMark   = "vf15.op" // marker the child drops into the point log at the start of every operation
+	vf15TombExp  = 100       // expiration epoch of every tombstone
+	vf15ObjExp   = 50        // expiration epoch of the expiring universe members
+	vf15NewEpoch = 150       // epoch the "epoch" operation announces (everything expiring has expired)
+)
 
-func (vf15Epoch) CurrentEpoch() uint64 { return 0 }
+type vf15Epoch struct{ v atomic.Uint64 }
+
+func (e *vf15Epoch) CurrentEpoch() uint64 { return e.v.Load() }
+
+type vf15NoPayments struct{}
+
+func (vf15NoPayments) PaymentsDisabled() bool            { return true }
+func (vf15NoPayments) UnpaidSince(cid.ID) (int64, error) { return -1, nil }
 
 type vf15Op struct {
-	Kind string `json:"kind"` // put | delete | mark-redundant | mark-garbage | tombstone | gc | flush | bgflush
+	Kind string `json:"kind"` // put | delete | mark-redundant | mark-garbage | tombstone | epoch | gc | flush | bgflush
 	Obj  int    `json:"obj"`
 }
 
+func vf15NoArg(kind string) bool {
+	switch kind {
+	case "gc", "flush", "bgflush", "epoch":
+		return true
+	}
+	return false
+}
+
 func (o vf15Op) String() string {
-	switch o.Kind {
-	case "gc", "flush", "bgflush":
+	if vf15NoArg(o.Kind) {
 		return o.Kind
 	}
 	return fmt.Sprintf("%s(%d)", o.Kind, o.Obj)
@@ -67,16 +94,27 @@ type vf15Spec struct {
 	Journal   string   `json:"journal"`
 }
 
-func vf15Open(dir string, wc bool, thr uint64, bcount int) (*Shard, error) {
-	sh := New(
+// vf15Open builds the shard the way the node does (FSTree blobstor with its default
+// writer, bbolt metabase, write-cache), with GC passes and epochs driven by the caller.
+// Expired objects are handed to a callback that does what the engine's callback does:
+// Shard.Delete.
+func vf15Open(dir string, wc bool, thr uint64, bcount int, ep *vf15Epoch) (*Shard, error) {
+	var sh *Shard
+	sh = New(
 		WithLogger(zap.NewNop()),
 		WithBlobstor(fstree.New(fstree.WithPath(filepath.Join(dir, "blob")), fstree.WithDepth(1))),
-		WithMetaBaseOptions(meta.WithPath(filepath.Join(dir, "meta")), meta.WithEpochState(vf15Epoch{}),
+		WithMetaBaseOptions(meta.WithPath(filepath.Join(dir, "meta")), meta.WithEpochState(ep),
 			meta.WithLogger(zap.NewNop()), meta.WithMaxBatchDelay(time.Microsecond)),
 		WithWriteCache(wc),
 		WithWriteCacheOptions(writecache.WithPath(filepath.Join(dir, "wc")), writecache.WithLogger(zap.NewNop()),
-			writecache.WithFlushWorkersCount(2), writecache.WithMaxFlushBatchThreshold(thr), writecache.WithMaxFlushBatchCount(bcount)),
-		WithGCRemoverSleepInterval(time.Hour),
+			writecache.WithFlushWorkersCount(1), writecache.WithMaxFlushBatchThreshold(thr), writecache.WithMaxFlushBatchCount(bcount)),
+		WithGCRemoverSleepInterval(240*time.Hour),
+		WithContainerPayments(vf15NoPayments{}),
+		WithExpiredObjectsCallback(func(addrs []oid.Address) {
+			for _, a := range addrs {
+				_ = sh.Delete(a.Container(), []oid.ID{a.Object()})
+			}
+		}),
 	)
 	if err := sh.Open(); err != nil {
 		return nil, err
@@ -84,6 +122,7 @@ func vf15Open(dir string, wc bool, thr uint64, bcount int) (*Shard, error) {
 	if err := sh.Init(); err != nil {
 		return nil, err
 	}
+	sh.gc.currentEpoch.Store(ep.CurrentEpoch())
 	return sh, nil
 }
 
@@ -98,6 +137,19 @@ func vf15CacheFiles(dir string) int {
 	return n
 }
 
+func vf15Unmarshal(raws [][]byte) []*object.Object {
+	var out []*object.Object
+	for _, raw := range raws {
+		o := new(object.Object)
+		if err := o.Unmarshal(raw); err != nil {
+			fmt.Println("child: bad object in spec:", err)
+			os.Exit(4)
+		}
+		out = append(out, o)
+	}
+	return out
+}
+
 // vf15Child replays the scripted history; with a crash point armed the process dies there.
 func vf15Child(specPath string) {
 	b, err := os.ReadFile(specPath)
@@ -110,35 +162,26 @@ func vf15Child(specPath string) {
 		fmt.Println("child: spec:", err)
 		os.Exit(4)
 	}
-	var objs, tombs []*object.Object
-	for _, raw := range sp.Objects {
-		o := new(object.Object)
-		if err := o.Unmarshal(raw); err != nil {
-			os.Exit(4)
-		}
-		objs = append(objs, o)
-	}
-	for _, raw := range sp.Tombs {
-		o := new(object.Object)
-		if err := o.Unmarshal(raw); err != nil {
-			os.Exit(4)
-		}
-		tombs = append(tombs, o)
-	}
-	sh, err := vf15Open(sp.Dir, sp.WC, sp.Thr, sp.BCount)
+	objs, tombs := vf15Unmarshal(sp.Objects), vf15Unmarshal(sp.Tombs)
+	ep := new(vf15Epoch)
+	sh, err := vf15Open(sp.Dir, sp.WC, sp.Thr, sp.BCount, ep)
 	if err != nil {
 		fmt.Println("child: open:", err)
 		os.Exit(4)
 	}
 	j, err := verifkit.OpenJournal(sp.Journal)
 	if err != nil {
+		fmt.Println("child: journal:", err)
 		os.Exit(4)
 	}
 	h := verifkit.InstallHooks()
+	var hits atomic.Int64
+	h.OnPoint(func(string, int) { hits.Add(1) })
 	if sp.CrashName != "" {
 		h.CrashAt(sp.CrashName, sp.CrashK)
 	}
 	for i, op := range sp.Ops {
+		verifhook.Point(vf15OpMark)
 		var err error
 		switch op.Kind {
 		case "put":
@@ -154,18 +197,32 @@ func vf15Child(specPath string) {
 			err = sh.MarkGarbage(a.Container(), []oid.ID{a.Object()}, meta.GarbageMarkDefault)
 		case "tombstone":
 			err = sh.Put(tombs[op.Obj], sp.Tombs[op.Obj])
+		case "epoch":
+			ep.v.Store(vf15NewEpoch)
+			sh.setEpochEventHandler(EventNewEpoch(vf15NewEpoch))
 		case "gc":
 			sh.removeGarbage()
 		case "flush":
 			err = sh.FlushWriteCache(false)
 		case "bgflush":
-			start := time.Now()
+			// Let the cache's own scheduler work: until the cache is empty, or it has gone
+			// quiet after at least one hand-off (objects may legitimately stay behind), or a
+			// generous bound.  Only decides WHICH crash points exist, never a verdict.
+			start, seen, last, lastAt := time.Now(), hits.Load(), hits.Load(), time.Now()
 			for vf15CacheFiles(sp.Dir) > 0 {
-				if time.Since(start) > 40*time.Second {
-					fmt.Println("child: background flush did not finish")
-					os.Exit(5)
+				now := hits.Load()
+				if now != last {
+					last, lastAt = now, time.Now()
 				}
-				time.Sleep(10 * time.Millisecond)
+				if now != seen && time.Since(lastAt) > 400*time.Millisecond {
+					err = fmt.Errorf("flusher went quiet with %d files left", vf15CacheFiles(sp.Dir))
+					break
+				}
+				if time.Since(start) > 4*time.Second {
+					err = fmt.Errorf("flusher left %d files", vf15CacheFiles(sp.Dir))
+					break
+				}
+				time.Sleep(5 * time.Millisecond)
 			}
 		}
 		res := "ok"
@@ -202,39 +259,46 @@ func (hs *vf15Hist) describe() map[string]any {
 	for _, b := range hs.bins {
 		sizes = append(sizes, len(b))
 	}
-	return map[string]any{"history": hs.idx, "write_cache": hs.wc, "batch_threshold": hs.thr, "object_sizes": sizes, "ops": ops}
+	return map[string]any{"history": hs.idx, "write_cache": hs.wc, "batch_threshold": hs.thr, "batch_count": hs.bc, "object_sizes": sizes, "ops": ops}
 }
 
 func vf15GenHist(r *verifkit.Run, idx int) *vf15Hist {
 	rng := r.Rand("hist", idx)
-	hs := &vf15Hist{idx: idx, wc: idx%3 != 2, thr: 2048, bc: 2 + rng.IntN(3)}
+	hs := &vf15Hist{idx: idx, wc: idx%4 != 3, thr: 2048, bc: 2 + rng.IntN(3)}
 	cnr, owner := verifkit.RandCID(rng), verifkit.RandUser(rng)
 	n := 3 + rng.IntN(3)
 	for i := 0; i < n; i++ {
-		pl := 32 + rng.IntN(300)
+		pl := 32 + 40*i + rng.IntN(30) // distinct sizes: the flush scheduler orders by size
 		if rng.IntN(3) == 0 {
-			pl = 2100 + rng.IntN(2000) // above the batch threshold: flushed alone
+			pl = 2100 + 500*i + rng.IntN(400) // above the batch threshold: flushed alone
 		}
 		o := verifkit.NewObject(rng, cnr, owner, pl)
+		if rng.IntN(4) == 0 {
+			verifkit.SetExpiration(o, vf15ObjExp)
+		}
 		hs.objs = append(hs.objs, o)
 		hs.bins = append(hs.bins, o.Marshal())
 		ts := verifkit.NewObject(rng, cnr, owner, 0)
 		ts.SetType(object.TypeTombstone)
 		ts.AssociateDeleted(o.GetID())
-		verifkit.SetExpiration(ts, 100)
+		verifkit.SetExpiration(ts, vf15TombExp)
 		hs.tombs = append(hs.tombs, ts.Marshal())
 	}
 	put := map[int]bool{}
-	nOps := 6 + rng.IntN(5)
+	epochDone := false
+	nOps := 7 + rng.IntN(4)
 	for len(hs.ops) < nOps {
 		var kinds []string
 		if len(put) < n {
 			kinds = append(kinds, "put", "put", "put")
 		}
 		if len(put) > 0 {
-			kinds = append(kinds, "put-again", "delete", "delete", "mark-redundant", "mark-garbage", "tombstone", "gc", "gc")
+			kinds = append(kinds, "put-again", "delete", "delete", "mark-redundant", "mark-redundant", "mark-garbage", "tombstone", "gc", "gc")
 			if hs.wc {
 				kinds = append(kinds, "flush", "bgflush")
+			}
+			if !epochDone && len(hs.ops) >= 3 {
+				kinds = append(kinds, "epoch")
 			}
 		}
 		k := kinds[rng.IntN(len(kinds))]
@@ -253,32 +317,24 @@ func vf15GenHist(r *verifkit.Run, idx int) *vf15Hist {
 			hs.ops = append(hs.ops, vf15Op{Kind: "put", Obj: i})
 		case "put-again":
 			hs.ops = append(hs.ops, vf15Op{Kind: "put", Obj: have[rng.IntN(len(have))]})
+		case "epoch":
+			epochDone = true
+			hs.ops = append(hs.ops, vf15Op{Kind: k})
 		case "gc", "flush", "bgflush":
 			hs.ops = append(hs.ops, vf15Op{Kind: k})
 		default:
 			hs.ops = append(hs.ops, vf15Op{Kind: k, Obj: have[rng.IntN(len(have))]})
 		}
 	}
-	// make sure marks are followed by a GC pass and cached data meets a flush
-	hs.ops = append(hs.ops, vf15Op{Kind: "gc"})
+	// marks meet a GC pass, cached data meets a flush: the last operation is a GC pass or
+	// (every second cached history) a background flush.  Still <= 10 operations.
+	if len(hs.ops) == 10 {
+		hs.ops = hs.ops[:9]
+	}
 	if hs.wc && idx%2 == 0 {
 		hs.ops = append(hs.ops, vf15Op{Kind: "bgflush"})
-	}
-	if len(hs.ops) > 10 {
-		hs.ops = hs.ops[len(hs.ops)-10:]
-		// the cut may have removed a first put: keep the script meaningful by putting first
-		seen := map[int]bool{}
-		var fixed []vf15Op
-		for _, o := range hs.ops {
-			if o.Kind != "put" && o.Kind != "gc" && o.Kind != "flush" && o.Kind != "bgflush" && !seen[o.Obj] {
-				continue // operation on an object the shortened script never stored
-			}
-			if o.Kind == "put" {
-				seen[o.Obj] = true
-			}
-			fixed = append(fixed, o)
-		}
-		hs.ops = fixed
+	} else {
+		hs.ops = append(hs.ops, vf15Op{Kind: "gc"})
 	}
 	return hs
 }
@@ -287,6 +343,7 @@ type vf15Job struct {
 	hs    *vf15Hist
 	name  string
 	k     int
+	step  string // last shard-level step point passed in the operation in progress (from the dry run)
 	dry   bool
 	order []string
 }
@@ -305,7 +362,7 @@ func vf15RunChild(r *verifkit.Run, base string, jb *vf15Job) (dir string, res ve
 	sb, _ := json.Marshal(sp)
 	specPath := filepath.Join(dir, "spec.json")
 	_ = os.WriteFile(specPath, sb, 0o644)
-	res = verifkit.SpawnChild("TestVerif_C15", specPath, nil, 120*time.Second)
+	res = verifkit.SpawnChild("TestVerif_C15", specPath, nil, 180*time.Second)
 	if jb.dry {
 		if ob, err := os.ReadFile(sp.Out); err == nil {
 			_ = json.Unmarshal(ob, &jb.order)
@@ -314,40 +371,23 @@ func vf15RunChild(r *verifkit.Run, base string, jb *vf15Job) (dir string, res ve
 	return dir, res, verifkit.ReadJournal(sp.Journal)
 }
 
-// vf15Recover reopens the crashed store and applies the oracle.
-func vf15Recover(r *verifkit.Run, jb *vf15Job, dir string, journal []string) {
-	desc := jb.hs.describe()
-	desc["crash_point"] = fmt.Sprintf("%s#%d", jb.name, jb.k)
-	inProgress := "none"
-	if len(journal) < len(jb.hs.ops) {
-		inProgress = jb.hs.ops[len(journal)].Kind
-	}
-	desc["op_in_progress"] = inProgress
-	desc["ops_completed_before_crash"] = len(journal)
-	var sh *Shard
-	var err error
-	if r.Guard(desc, func() { sh, err = vf15Open(dir, jb.hs.wc, jb.hs.thr, jb.hs.bc) }) {
-		return
-	}
-	if err != nil {
-		r.Violation(fmt.Sprintf("reopen-failed|wc=%v|crash@%s|during=%s", jb.hs.wc, jb.name, inProgress), "shard does not reopen after the crash: "+err.Error(), desc)
-		return
-	}
-	defer func() { r.Guard(desc, func() { _ = sh.Close() }) }()
-	type item struct {
-		addr oid.Address
-		bin  []byte
-		what string
-	}
-	var items []item
-	for i, o := range jb.hs.objs {
-		items = append(items, item{o.Address(), jb.hs.bins[i], fmt.Sprintf("object %d", i)})
-		ts := new(object.Object)
-		if ts.Unmarshal(jb.hs.tombs[i]) == nil {
-			items = append(items, item{ts.Address(), jb.hs.tombs[i], fmt.Sprintf("tombstone of %d", i)})
-		}
-	}
+type vf15Item struct {
+	addr oid.Address
+	bin  []byte
+	what string
+}
+
+// vf15CheckAll applies the statement to every address of the universe: listed as
+// available => every full read returns exactly the stored bytes.
+// Addresses in skip (already reported for this recovery) are not judged again; the
+// addresses judged unreadable are returned.
+func vf15CheckAll(r *verifkit.Run, sh *Shard, items []vf15Item, desc map[string]any, key, phase, where string, skip map[oid.Address]bool) map[oid.Address]bool {
+	listed := 0
+	failed := map[oid.Address]bool{}
 	for _, it := range items {
+		if skip[it.addr] {
+			continue
+		}
 		var (
 			ex   bool
 			eerr error
@@ -355,35 +395,154 @@ func vf15Recover(r *verifkit.Run, jb *vf15Job, dir string, journal []string) {
 		if r.Guard(desc, func() { ex, eerr = sh.Exists(it.addr, false) }) {
 			continue
 		}
-		r.Count("addresses_checked_after_crash", 1)
+		r.Count("addresses_checked"+phase, 1)
 		if eerr != nil || !ex {
-			r.Count("addresses_not_listed_as_available", 1)
+			r.Count("addresses_not_listed_as_available"+phase, 1)
 			continue
 		}
-		r.Count("addresses_listed_as_available", 1)
-		var (
-			got  *object.Object
-			gerr error
-			gb   []byte
-			berr error
-		)
-		if r.Guard(desc, func() { got, gerr = sh.Get(it.addr, false); gb, berr = sh.GetBytes(it.addr) }) {
-			continue
-		}
-		key := fmt.Sprintf("wc=%v|crash@%s|during=%s", jb.hs.wc, jb.name, inProgress)
-		switch {
-		case gerr != nil || berr != nil:
-			e := gerr
-			if e == nil {
-				e = berr
+		listed++
+		r.Count("addresses_listed_as_available"+phase, 1)
+		// where does the data live (evidence only)
+		inWC, inBlob := false, false
+		if sh.hasWriteCache() {
+			if _, err := sh.writeCache.GetBytes(it.addr); err == nil {
+				inWC = true
 			}
-			r.Violation("listed-but-unreadable|"+key, fmt.Sprintf("after a crash at %s#%d (during %s) the metadata lists %s (%s) as available but it cannot be read: %v", jb.name, jb.k, inProgress, it.what, it.addr, e), desc)
-		case !bytes.Equal(got.Marshal(), it.bin) || !bytes.Equal(gb, it.bin):
-			r.Violation("listed-but-different-bytes|"+key, fmt.Sprintf("after a crash at %s#%d the object %s reads back with different bytes", jb.name, jb.k, it.what), desc)
+		}
+		if _, err := sh.blobStor.GetBytes(it.addr); err == nil {
+			inBlob = true
+		}
+		r.Seen("data_location_of_listed_objects", fmt.Sprintf("cache=%v,blob=%v", inWC, inBlob))
+		var (
+			got              *object.Object
+			gerr, berr, lerr error
+			gb, lb           []byte
+			shdr             *object.Object
+			spl              []byte
+			serr             error
+		)
+		if r.Guard(desc, func() {
+			got, gerr = sh.Get(it.addr, false)
+			gb, berr = sh.GetBytes(it.addr)
+			lb, lerr = sh.GetBytesWithMetadataLookup(it.addr)
+			var rc io.ReadCloser
+			shdr, rc, serr = sh.GetStream(it.addr, false)
+			if serr == nil {
+				spl, serr = io.ReadAll(rc)
+				_ = rc.Close()
+			}
+		}) {
+			continue
+		}
+		var want object.Object
+		_ = want.Unmarshal(it.bin)
+		bad := func(call string, e error) {
+			failed[it.addr] = true
+			r.Violation("listed-but-unreadable|"+key, fmt.Sprintf("%s: the metadata lists %s (%s) as available but %s cannot read it: %v (data in cache=%v, in blobstor=%v)", where, it.what, it.addr, call, e, inWC, inBlob), desc)
+		}
+		switch {
+		case gerr != nil:
+			bad("Get", gerr)
+		case berr != nil:
+			bad("GetBytes", berr)
+		case lerr != nil:
+			bad("GetBytesWithMetadataLookup", lerr)
+		case serr != nil:
+			bad("GetStream", serr)
+		case !bytes.Equal(got.Marshal(), it.bin) || !bytes.Equal(gb, it.bin) || !bytes.Equal(lb, it.bin) ||
+			!bytes.Equal(spl, want.Payload()) || shdr == nil || !bytes.Equal(shdr.CutPayload().Marshal(), want.CutPayload().Marshal()):
+			failed[it.addr] = true
+			r.Violation("listed-but-different-bytes|"+key, fmt.Sprintf("%s: %s (%s) is listed as available but reads back with different bytes", where, it.what, it.addr), desc)
 		default:
-			r.Count("available_objects_read_back_identical", 1)
+			r.Count("available_objects_read_back_identical"+phase, 1)
 		}
 	}
+	if listed > 0 {
+		r.Count("recoveries_with_available_objects"+phase, 1)
+	}
+	return failed
+}
+
+// vf15Recover reopens the crashed store and applies the oracle.
+func vf15Recover(r *verifkit.Run, jb *vf15Job, dir string, journal []string, crashed bool) {
+	desc := jb.hs.describe()
+	desc["crash_point"] = fmt.Sprintf("%s#%d", jb.name, jb.k)
+	desc["crashed"] = crashed
+	inProgress := "none"
+	if len(journal) < len(jb.hs.ops) {
+		inProgress = jb.hs.ops[len(journal)].Kind
+	}
+	desc["op_in_progress"] = inProgress
+	desc["step_passed_in_op"] = jb.step
+	desc["ops_completed_before_crash"] = len(journal)
+	desc["journal"] = journal
+	ep := new(vf15Epoch)
+	for i := 0; i < len(journal) && i < len(jb.hs.ops); i++ {
+		if jb.hs.ops[i].Kind == "epoch" {
+			ep.v.Store(vf15NewEpoch)
+		}
+	}
+	desc["epoch_at_reopen"] = ep.CurrentEpoch()
+	var sh *Shard
+	var err error
+	if r.Guard(desc, func() { sh, err = vf15Open(dir, jb.hs.wc, jb.hs.thr, jb.hs.bc, ep) }) {
+		return
+	}
+	key := fmt.Sprintf("wc=%v|during=%s|after-step=%s", jb.hs.wc, inProgress, jb.step)
+	where := fmt.Sprintf("after a crash at %s#%d (during %s, after step %s)", jb.name, jb.k, inProgress, jb.step)
+	if err != nil {
+		r.Violation("reopen-failed|"+key, where+": shard does not reopen: "+err.Error(), desc)
+		return
+	}
+	defer func() { r.Guard(desc, func() { _ = sh.Close() }) }()
+	if m := sh.GetMode(); m.NoMetabase() || m.ReadOnly() {
+		r.Violation("reopen-degraded|"+key, fmt.Sprintf("%s: shard reopens in mode %s", where, m), desc)
+		return
+	}
+	var items []vf15Item
+	for i, o := range jb.hs.objs {
+		items = append(items, vf15Item{o.Address(), jb.hs.bins[i], fmt.Sprintf("object %d", i)})
+		ts := new(object.Object)
+		if ts.Unmarshal(jb.hs.tombs[i]) == nil {
+			items = append(items, vf15Item{ts.Address(), jb.hs.tombs[i], fmt.Sprintf("tombstone of %d", i)})
+		}
+	}
+	failed := vf15CheckAll(r, sh, items, desc, key, "", where, nil)
+	// The statement speaks about the restarted node, not only its first instant: a GC
+	// pass and a flush of whatever the crash left in the cache must not change the answer.
+	if crashed {
+		var ferr error
+		if r.Guard(desc, func() {
+			sh.removeGarbage()
+			if jb.hs.wc {
+				ferr = sh.FlushWriteCache(false)
+			}
+		}) {
+			return
+		}
+		if ferr != nil {
+			r.Count("post_recovery_flush_errors", 1)
+		}
+		vf15CheckAll(r, sh, items, desc, key+"|after-restart-gc-and-flush", "_after_restart_gc_flush", where+", then one GC pass and an explicit flush on the restarted shard", failed)
+	}
+}
+
+// vf15Prefixes: which instrumentation points are crash points.  Component step
+// boundaries always; the FSTree-internal syscall points (the subject of C12) only in the
+// thorough tier, to see the shard-level consequence of a half-done blob or cache write.
+func vf15IsCrashPoint(r *verifkit.Run, name string) bool {
+	if strings.HasPrefix(name, "shard.") || strings.HasPrefix(name, "writecache.") {
+		return true
+	}
+	return r.Thorough() && strings.HasPrefix(name, "fstree.")
+}
+
+func vf15NormStep(s string) string {
+	switch s {
+	case "", "shard.put.meta", "shard.delete.blobs": // final step of the previous procedure
+		return "start"
+	}
+	return s
 }
 
 func TestVerif_C15(t *testing.T) {
@@ -393,15 +552,16 @@ func TestVerif_C15(t *testing.T) {
 	}
 	r := verifkit.Start(t, "C15", "fault_enumeration")
 	defer r.Finish()
-	r.SetRule("history = seeded script of <=10 shard operations over 3-5 objects (sizes on both sides of the write-cache batch threshold; write-cache on in 2 of 3 histories); case = (history, hook point, k-th hit) enumerated from a dry run; a case is non-trivial when the child really died at the point; distinct = distinct (history, point, k)")
+	r.SetRule("history = seeded script of <=10 shard operations over 3-5 objects (distinct sizes on both sides of the write-cache batch threshold, some expiring; write-cache on in 3 of 4 histories); case = (history, hook point, k-th hit) enumerated from a dry run; a case is non-trivial when the child really died at the point; distinct = distinct (history, point, k)")
 	r.Assume("process-crash model: SIGKILL at the step boundary, everything handed to the kernel survives (no power loss)")
-	r.Assume("reopen without metabase resync; GC passes and flushes are driven explicitly by the script, background flush only inside the 'bgflush' operation")
+	r.Assume("reopen without metabase resync; GC passes, epoch and flushes are driven explicitly by the script, background flush only inside the 'bgflush' operation (one flush worker)")
+	r.Assume("'metadata reports as available' = Shard.Exists(addr,false) returns true without error at the epoch of the last completed epoch operation")
 	base := os.Getenv("VERIF_SCRATCH")
 	if base == "" {
 		base = os.TempDir()
 	}
-	nHist := r.Pick(9, 60)
-	par := r.Pick(8, 10)
+	nHist := r.Pick(16, 90)
+	par := r.Pick(12, 12)
 	var hists []*vf15Hist
 	for i := 0; i < nHist; i++ {
 		hists = append(hists, vf15GenHist(r, i))
@@ -431,22 +591,43 @@ func TestVerif_C15(t *testing.T) {
 		if res.ExitCode != 0 || res.Signaled || len(journal) != len(jb.hs.ops) {
 			r.Inconclusive(fmt.Sprintf("history %d: dry run did not complete (exit %d, %d/%d ops): %s", jb.hs.idx, res.ExitCode, len(journal), len(jb.hs.ops), strings.TrimSpace(res.Output)))
 			jb.order = nil
+			return
 		}
-		r.Sample(map[string]any{"history": jb.hs.describe(), "step_boundaries_passed": len(jb.order)})
+		for i, l := range journal {
+			f := strings.SplitN(l, " ", 3)
+			outcome := "ok"
+			if len(f) == 3 && strings.HasPrefix(f[2], "err") {
+				outcome = "err"
+			}
+			r.Count("dry_ops_"+jb.hs.ops[i].Kind+"_"+outcome, 1)
+		}
+		r.Sample(map[string]any{"history": jb.hs.describe(), "step_boundaries_passed": len(jb.order), "dry_run_journal": journal})
 	})
 	// 2. one crash child per (point, k)
 	var jobs []*vf15Job
 	for _, d := range dry {
 		cnt := map[string]int{}
+		step := ""
+		n := 0
 		for _, name := range d.order {
+			if name == vf15OpMark {
+				step = ""
+				continue
+			}
 			cnt[name]++
-			jobs = append(jobs, &vf15Job{hs: d.hs, name: name, k: cnt[name]})
-			r.Seen("crash_points_enumerated", name)
+			if vf15IsCrashPoint(r, name) {
+				jobs = append(jobs, &vf15Job{hs: d.hs, name: name, k: cnt[name], step: vf15NormStep(step)})
+				r.Seen("crash_points_enumerated", name)
+				n++
+			}
+			if strings.HasPrefix(name, "shard.") {
+				step = name
+			}
 		}
-		r.Count("crash_cases_enumerated", len(d.order))
+		r.Count("crash_cases_enumerated", n)
 	}
 	if len(jobs) == 0 {
-		r.Inconclusive("no hook point was passed by any history (hooks H3/H4 not compiled into this tree?)")
+		r.Inconclusive("no hook point was passed by any history (hooks not compiled into this tree?)")
 		return
 	}
 	run(jobs, func(jb *vf15Job) {
@@ -454,20 +635,25 @@ func TestVerif_C15(t *testing.T) {
 		defer os.RemoveAll(dir)
 		r.Eval(1)
 		switch {
-		case res.Signaled && res.Signal == syscall.SIGKILL:
+		case res.Signaled && res.Signal == syscall.SIGKILL && !res.TimedOut:
 			r.Count("crash_cases_reached", 1)
 			r.Seen("crash_points_reached", jb.name)
 			r.Distinct(fmt.Sprintf("h%d|%s|%d", jb.hs.idx, jb.name, jb.k))
-			vf15Recover(r, jb, dir, journal)
-		case res.ExitCode == 0 && !res.TimedOut:
+			inProgress := "none"
+			if len(journal) < len(jb.hs.ops) {
+				inProgress = jb.hs.ops[len(journal)].Kind
+			}
+			r.Seen("crash_situations", fmt.Sprintf("wc=%v during=%s at=%s", jb.hs.wc, inProgress, jb.name))
+			vf15Recover(r, jb, dir, journal, true)
+		case res.ExitCode == 0 && !res.TimedOut && !res.Signaled:
 			// the schedule of the background flusher differed from the dry run
 			r.Count("crash_cases_point_not_reached", 1)
-			vf15Recover(r, jb, dir, journal) // clean shutdown: the oracle holds a fortiori
+			vf15Recover(r, jb, dir, journal, false) // clean shutdown: the oracle holds a fortiori
 		default:
-			r.Inconclusive(fmt.Sprintf("history %d crash@%s#%d: child ended unexpectedly (exit %d, timeout %v): %s", jb.hs.idx, jb.name, jb.k, res.ExitCode, res.TimedOut, strings.TrimSpace(res.Output)))
+			r.Inconclusive(fmt.Sprintf("history %d crash@%s#%d: child ended unexpectedly (exit %d, signal %v, timeout %v): %s", jb.hs.idx, jb.name, jb.k, res.ExitCode, res.Signal, res.TimedOut, strings.TrimSpace(res.Output)))
 		}
 	})
-	if e, re := r.Counter("crash_cases_enumerated"), r.Counter("crash_cases_reached"); re*10 < e*8 {
+	if e, re := r.Counter("crash_cases_enumerated"), r.Counter("crash_cases_reached"); re*10 < e*9 {
 		r.Inconclusive(fmt.Sprintf("only %d of %d enumerated crash points were reached", re, e))
 	}
 	r.SetExhaustive(r.Counter("crash_cases_reached") == r.Counter("crash_cases_enumerated"))
